@@ -560,6 +560,14 @@ func (w *worker) fail(p *pending, clause string, pr printing, culprits []edge, s
 				best = i
 			}
 		}
+		// '.' pulled into a tighter operator shows as a culprit edge under a concat parent, however
+		// deep the operator that swallowed it sits: that edge names the sentence of the statement
+		for i, e := range culprits {
+			if e.parent.op.cls == clsConcat && e.child.op.cls.level >= clsAdd.level {
+				best = i
+				break
+			}
+		}
 		if strings.HasPrefix(clause, "spacing") {
 			// the operator whose spelling changed is a binary + or -: prefer the outermost such edge
 			for i, e := range culprits {
@@ -847,7 +855,10 @@ func replay(c *ev.Check) {
 		}
 	}
 	if !hit {
-		fmt.Println("not reproduced (the tree now satisfies the property)")
+		fmt.Println("not reproduced under this key")
+		for _, f := range lw.fails {
+			fmt.Printf("  the tree fails under another key: %s\n", f.Key)
+		}
 	}
 	c.Finish(1, 1, 1, "replay")
 }
